@@ -891,9 +891,10 @@ def _(p, i, r):
 @op("V59", "comment_in_instruction", "COMMENT_ON_INSTR", ("global", "proto"), ("c", "h"))
 def _(p, i, r):
     l = p.lines[i]
-    js = [j for j in range(1, len(l.segs)) if l.segs[j] == SP]
+    semi = [j for j in range(len(l.segs)) if l.segs[j] == (";", "punct")]
+    js = [j for j in range(1, len(l.segs)) if l.segs[j] == SP and semi and j < semi[-1]]
     if not js:
-        return None
+        return None                 # no blank inside the instruction itself (a blank before a trailing comment does not count)
     j = js[0]
     l.segs[j + 1:j + 1] = [("/* x */", "comment:block"), SP]
     if not _fits(l):
